@@ -279,6 +279,10 @@ STAT_VECTORS = [
     ("skewed-1000:1", ["1000", "1", "1", "1", "1", "1"]),
     ("dominant-1e300-vs-1", ["1", "1e300", "1"]),
     ("probabilities", ["0.05", "0.15", "0.3", "0.5"]),
+    ("subnormal-5e-324", ["5e-324", "1.5e-323"]),
+    ("subnormal-1e-310", ["1e-310", "3e-310", "1e-310"]),
+    ("near-max-1e308", ["4e307", "1.2e308"]),
+    ("max-equal-1.7e308", ["1.7e308", "1.7e308"]),
 ]
 
 
